@@ -370,6 +370,17 @@ impl<'r, 'b> PeekRr<'r, 'b> {
         ))
     }
 
+    /// Returns the resource record's raw 32-bit TTL field, without the
+    /// RFC 2181 § 8 interpretation that [`PeekRr::ttl`] applies. This is
+    /// what pseudo-RRs such as OPT, which reuse the field, need.
+    pub fn raw_ttl(&self) -> u32 {
+        u32::from_be_bytes(
+            self.reader.octets[self.owner_end + 4..self.owner_end + 8]
+                .try_into()
+                .unwrap(),
+        )
+    }
+
     /// Returns the resource record's RDLENGTH field.
     pub fn rdlength(&self) -> u16 {
         u16::from_be_bytes(
